@@ -489,6 +489,38 @@ func VerifC11_InvalidOperandInGroups() {
 	rt.Reach("invalid-operand-end")
 }
 
+// operands and keys that are spelled like structural tokens - a parenthesis,
+// and / or / not - next to real groups and connectives in the same query
+func VerifC11_StructuralWordsAsOperands() {
+	word := []string{"(", ")", "and", "or", "not"}[rt.Choice("word", 5)]
+	a, b := Where("n", GreaterThan, 1), Where("e", Exists, nil)
+	var special Condition
+	if rt.Bool("as-key") {
+		special = Where(word, Exists, nil)
+	} else {
+		special = Where("s", SameAs, word)
+	}
+	var w Condition
+	switch rt.Choice("shape", 5) {
+	case 0:
+		w = And(special, Or(a, b))
+	case 1:
+		w = Or(special, Not(And(a, b)))
+	case 2:
+		w = And(Or(a, b), special)
+	case 3:
+		w = Not(Or(special, a))
+	case 4:
+		w = And(special, a, Not(b))
+	}
+	q := New("t:").Where(w)
+	if rt.Bool("tail") {
+		q.OrderBy(word)
+	}
+	roundTrip(q, "structuralwords")
+	rt.Reach("structuralwords-end")
+}
+
 // groups of zero or one condition, nested and negated
 func VerifC11_GroupShapes() {
 	a, b := Where("n", GreaterThan, 1), Where("s", SameAs, "x")
